@@ -1,19 +1,113 @@
 import LeptosModel.Model.Keyed
-import LeptosModel.Proofs.KeyedDiff
+import LeptosModel.Proofs.KeyedSummary
 /-!
 # C11 — keyed lists keep item identity and end in the new order
 
-(under construction: theorems are added as they are proved)
+Model: `LeptosModel/Model/Keyed.lean` (tachys/src/view/keyed.rs `diff`, `group_adjacent_moves`,
+`unpack_moves`, `apply_diff`, `Keyed::{build, rebuild}`, `KeyedState::{mount, unmount,
+insert_before_this}` over a parent whose child list is `pre ++ item blocks ++ marker :: post`).
+
+All theorems quantify over ALL key sequences `to` without duplicates (any length) and all list states
+`s` that satisfy `Wf` (no holes, one item per key of `hashed_items`, in order, no key twice) — the
+states `build` and `rebuild` produce (`C11_build_wf`, `C11_storage_is_to`).  Lemmas: `Proofs/Keyed*.lean`.
 -/
 namespace Leptos.Keyed
 
+/-! ## unpack_moves -/
+
 /-- **`unpack_moves` is complete**: for every `Diff` whose groups are non-empty and whose
-`items_to_move` is the sum of the group lengths (as `diff` produces them), `unpack_moves` returns
-every single move of every group, in order, and every add. -/
+`items_to_move` is the sum of the group lengths, `unpack_moves` returns every single move of every
+group, in order, and every add — whatever the `removed` list is. -/
 theorem C11_unpack_complete (d : Diff) (hlen : ∀ m ∈ d.moved, 1 ≤ m.len)
     (hsum : d.itemsToMove = sumLens d.moved) :
     unpackMoves d = (d.moved.flatMap singles, d.added) := by
   unfold unpackMoves
   exact unpackLoop_complete _ 0 d.removed d.added d.moved hlen (by omega)
+
+/-- … in particular for every `Diff` that `diff` computes (any two sequences, even with duplicates) -/
+theorem C11_unpack_complete_diff (frm to : List Key) :
+    unpackMoves (diff frm to) = ((diff frm to).moved.flatMap singles, (diff frm to).added) :=
+  unpack_diff frm to
+
+/-- grouping loses no move: the single moves of the groups are the moves that were grouped
+(`from`/`to` of each; the `move_in_dom` flag of a group is the flag of its first member) -/
+theorem C11_group_complete (ms : List DiffOpMove) (h : ∀ m ∈ ms, m.len = 1) :
+    ((groupAdjacentMoves ms).flatMap singles).map (fun m => (m.from_, m.to_))
+      = ms.map fun m => (m.from_, m.to_) :=
+  group_pairs ms h
+
+example : ∃ d : Diff, (∀ m ∈ d.moved, 1 ≤ m.len) ∧ d.itemsToMove = sumLens d.moved ∧ d.moved ≠ [] :=
+  ⟨diff [0, 1, 2, 3] [2, 3, 0, 1], by decide⟩
+
+/-! ## storage, identity, set_index -/
+
+theorem rebuild_summary (s : KState) (to : List Key) (hs : Wf s) (hto : to.Nodup) :
+    Summary s.hashed to (somes s.w.storage) (rebuild s to).w :=
+  applyDiff_summary s.hashed to (somes s.w.storage) hs.nodup hto hs.keys s.bs s.marker
+    { s.w with log := {} } hs.all_some rfl
+
+/-- **storage is `to`**: after `rebuild`, `rendered_items` has exactly `to.length` entries, none of
+them a hole, and entry `j` is the item keyed `to[j]`; no `unwrap`/index panic happened; the new state
+is again `Wf` (so the theorems apply to the next update). -/
+theorem C11_storage_is_to (s : KState) (to : List Key) (hs : Wf s) (hto : to.Nodup) :
+    (rebuild s to).w.storage.length = to.length ∧
+    (∀ (j : Nat) (k : Key), to[j]? = some k →
+      ∃ it, (rebuild s to).w.storage[j]? = some (some it) ∧ it.key = k) ∧
+    (rebuild s to).hashed = to ∧
+    (rebuild s to).w.log.panic = false ∧
+    Wf (rebuild s to) := by
+  have sm := rebuild_summary s to hs hto
+  have hlen : (rebuild s to).w.storage.length = to.length := by
+    rw [sm.all_some, List.length_map, sm.len]
+  have hat : ∀ (j : Nat) (k : Key), to[j]? = some k →
+      ∃ it, (rebuild s to).w.storage[j]? = some (some it) ∧ it.key = k := by
+    intro j k hk
+    obtain ⟨it, hit, hkey, _⟩ := sm.at_ j k hk
+    refine ⟨it, ?_, hkey⟩
+    rw [sm.all_some, List.getElem?_map, hit]
+    rfl
+  refine ⟨hlen, hat, rfl, sm.no_panic, ⟨sm.all_some, ?_, hto⟩⟩
+  show (somes (rebuild s to).w.storage).map (·.key) = to
+  apply List.ext_getElem?
+  intro j
+  rw [List.getElem?_map]
+  by_cases hj : j < to.length
+  · obtain ⟨it, hit, hkey, _⟩ := sm.at_ j to[j] (List.getElem?_eq_getElem hj)
+    rw [hit, List.getElem?_eq_getElem hj]
+    simp [hkey]
+  · rw [List.getElem?_eq_none (by rw [sm.len]; omega), List.getElem?_eq_none (by omega)]
+    rfl
+
+/-- **identity**: an item whose key is in both sequences is the very same item afterwards (same state,
+same DOM nodes — it is never rebuilt: `view_fn` is called for new keys only); every new key is built
+exactly once, with its index; every vanished key is unmounted exactly once. -/
+theorem C11_identity (s : KState) (to : List Key) (hs : Wf s) (hto : to.Nodup) :
+    (∀ it ∈ somes s.w.storage, it.key ∈ to → it ∈ somes (rebuild s to).w.storage) ∧
+    (((rebuild s to).w.log.builds.map (·.1)).Nodup ∧
+      ∀ (k : Key) (i : Nat), (k, i) ∈ (rebuild s to).w.log.builds ↔ to[i]? = some k ∧ k ∉ s.hashed) ∧
+    ((rebuild s to).w.log.unmounts.Nodup ∧
+      ∀ k : Key, k ∈ (rebuild s to).w.log.unmounts ↔ k ∈ s.hashed ∧ k ∉ to) := by
+  have sm := rebuild_summary s to hs hto
+  refine ⟨?_, ⟨sm.builds_nodup, sm.builds_mem⟩, ⟨sm.unmounts_nodup, sm.unmounts_mem⟩⟩
+  intro it hit hk
+  obtain ⟨i, hi⟩ := List.mem_iff_getElem?.mp hit
+  obtain ⟨j, hj⟩ := List.mem_iff_getElem?.mp hk
+  have hfi : s.hashed[i]? = some it.key := by
+    rw [← hs.keys, List.getElem?_map, hi]; rfl
+  obtain ⟨it', hit', _, hold⟩ := sm.at_ j it.key hj
+  have := hold i hfi
+  rw [hi] at this
+  simp only [Option.some.injEq] at this
+  subst this
+  exact List.mem_of_getElem? hit'
+
+/-- **set_index**: a retained item whose index changed is told its new index — exactly once, so the
+last value it is told is its final index; an item that keeps its index, a new item and a removed item
+get no `set_index` call (new items receive their index through `view_fn`, see `C11_identity`). -/
+theorem C11_set_index (s : KState) (to : List Key) (hs : Wf s) (hto : to.Nodup) :
+    ((rebuild s to).w.log.setIndex.map (·.1)).Nodup ∧
+    ∀ (k : Key) (i : Nat), (k, i) ∈ (rebuild s to).w.log.setIndex ↔
+      k ∈ s.hashed ∧ to[i]? = some k ∧ s.hashed[i]? ≠ some k :=
+  ⟨(rebuild_summary s to hs hto).setIndex_nodup, (rebuild_summary s to hs hto).setIndex_mem⟩
 
 end Leptos.Keyed
